@@ -33,7 +33,7 @@ def _scheme(sa):
     return sorted((tuple(int(x) for x in cg.levelvector), int(cg.coefficient)) for cg in sa.scheme)
 
 
-def resume(S, d, lmin, lmax, version, boundary, out_len, cap, pool, persist):
+def resume(S, d, lmin, lmax, version, boundary, out_len, cap, pool, persist, via='continue'):
     SD, GO, G, EC, RO, RC = dw.mods()
     m1 = S.int('M1')
     m2 = S.int('M2')
@@ -69,7 +69,12 @@ def resume(S, d, lmin, lmax, version, boundary, out_len, cap, pool, persist):
         S.prove(sym_and(*[S.eq(before_res[j], after_res[j]) for j in range(out_len)]), 'persist:restored-instance-reports-the-same-result')
         S.prove(_structure(restored, d) == _structure(saA, d) and _scheme(restored) == _scheme(saA), 'persist:restored-structure-and-scheme-identical')
         saA = restored
-    resA = saA.continue_adaptive_refinement(tol=-1.0, max_evaluations=m2)
+    if via == 'container':
+        # the other documented way to go on: performSpatiallyAdaptiv with the refinement container of the stopped run
+        saA.errorEstimator.round = -1  # the scripted estimator recognises a new evaluation by the length of the history arrays, which this call resets
+        resA = saA.performSpatiallyAdaptiv(lmin, lmax, saA.errorEstimator, tol=-1.0, refinement_container=saA.refinement, max_evaluations=m2, print_output=False)
+    else:
+        resA = saA.continue_adaptive_refinement(tol=-1.0, max_evaluations=m2)
     S.observe('final_points', [int(resA[6][-1]), int(resB[6][-1])])
     S.prove(_structure(saA, d) == _structure(saB, d), 'resume:same-final-refinement-structure')
     S.prove(_scheme(saA) == _scheme(saB) and [int(x) for x in saA.lmax] == [int(x) for x in saB.lmax], 'resume:same-final-combination-scheme')
@@ -115,7 +120,7 @@ def _es_structure(sa):
                   for o in es.leaves(sa))
 
 
-def resume_es(S, d, lmin, lmax, version, nrbe, auto, out_len, cap, pool, persist):
+def resume_es(S, d, lmin, lmax, version, nrbe, auto, out_len, cap, pool, persist, via='continue'):
     """Extend-split: interrupted at M1 (optionally saved/restored), continued to M2, against the uninterrupted run to M2."""
     ES, CELL, GO, G, EC, RO, RC = es.mods()
     m1 = S.int('M1')
@@ -152,7 +157,11 @@ def resume_es(S, d, lmin, lmax, version, nrbe, auto, out_len, cap, pool, persist
         S.prove(sym_and(*[S.eq(before_res[j], after_res[j]) for j in range(out_len)]), 'persist:restored-instance-reports-the-same-result')
         S.prove(_es_structure(restored) == _es_structure(saA) and _scheme(restored) == _scheme(saA), 'persist:restored-structure-and-scheme-identical')
         saA = restored
-    resA = saA.continue_adaptive_refinement(tol=-1.0, max_evaluations=m2)
+    if via == 'container':
+        saA.calc_error.__self__.round = -1  # see resume()
+        resA = saA.performSpatiallyAdaptiv(lmin, lmax, None, tol=-1.0, refinement_container=saA.refinement, max_evaluations=m2, print_output=False)
+    else:
+        resA = saA.continue_adaptive_refinement(tol=-1.0, max_evaluations=m2)
     S.observe('final_points', [int(resA[6][-1]), int(resB[6][-1])])
     S.prove(_es_structure(saA) == _es_structure(saB), 'resume:same-final-refinement-structure')
     S.prove(_scheme(saA) == _scheme(saB) and [int(x) for x in saA.lmax] == [int(x) for x in saB.lmax], 'resume:same-final-combination-scheme')
@@ -268,6 +277,14 @@ def jobs(tier):
         js.append(Job('resume-es[d=%d,l=%d-%d,v=%d,nrbe=%d%s,out=%d,cap=%d,%s]' % (d, lmin, lmax, v, nrbe, ',auto' if auto else '', out_len, cap, 'dill' if persist else 'mem'), resume_es,
                       {'d': d, 'lmin': lmin, 'lmax': lmax, 'version': v, 'nrbe': nrbe, 'auto': auto, 'out_len': out_len, 'cap': cap, 'pool': 1 if (q and auto) else 2, 'persist': persist},
                       validate=(5 if q else 2), budget_s=(600 if q else 3000)))
+    for (v, boundary, reb) in ([(6, True, False)] if q else [(6, True, False), (6, True, True), (3, False, False)]):
+        cap = (27 if q else 33) - (0 if boundary else 18)
+        js.append(Job('resume-container[d=2,l=1-2,v=%d,%s,%s]' % (v, 'b' if boundary else 'nb', 'rebal' if reb else 'norebal'), resume,
+                      {'d': 2, 'lmin': 1, 'lmax': 2, 'version': v, 'boundary': boundary, 'out_len': 1, 'cap': cap, 'pool': 2 if q else 3, 'persist': False, 'via': 'container'},
+                      validate=(5 if q else 2), budget_s=(600 if q else 3000)))
+    js.append(Job('resume-container-es[d=2,l=1-2,v=0,nrbe=1,out=1,cap=%d]' % (34 if q else 45), resume_es,
+                  {'d': 2, 'lmin': 1, 'lmax': 2, 'version': 0, 'nrbe': 1, 'auto': False, 'out_len': 1, 'cap': 34 if q else 45, 'pool': 2, 'persist': False, 'via': 'container'},
+                  validate=(5 if q else 2), budget_s=(600 if q else 3000)))
     for (d, level, out_len, cap) in ([(2, 1, 1, 14), (2, 2, 2, 30)] if q else [(2, 1, 2, 24), (2, 2, 1, 40), (3, 1, 1, 40)]):
         js.append(Job('resume-cell[d=%d,l=%d,out=%d,cap=%d]' % (d, level, out_len, cap), resume_cell, {'d': d, 'level': level, 'out_len': out_len, 'cap': cap, 'pool': 2},
                       validate=(5 if q else 2), budget_s=(600 if q else 3000)))
